@@ -180,7 +180,7 @@ func shardOf() (int, int) {
 func TestC09Cube(t *testing.T) {
 	max := 9
 	if os.Getenv("VERIF_TIER") == "thorough" {
-		max = 17
+		max = 24
 	}
 	st := vlib.StatsFor("C09", "cube", fmt.Sprintf("exhaustive: stored s in {none,0..%d} x submitted n in 0..%d x old o in 0..%d x {same branch, fork with different root} x 14 proof variants, one fresh witness per cell; ", max, max, max+1)+ruleC09)
 	shard, nshards := shardOf()
